@@ -192,9 +192,11 @@ def _enumerated(tier):
                 for ai, assign in enumerate(itertools.product(range(len(vocab)), repeat=n)):
                     if not any(i in nsets for i in assign):
                         continue            # no SetContext: the context is {} everywhere
+                    if tier == "quick" and n == 3 and (si + ai) % 3:
+                        continue            # quick: every third of the 3-leaf trees
                     leaves = [vocab[i] for i in assign]
-                    if tier == "quick":
-                        roots = ["seq" if (si + ai) % 2 else "source"]
+                    if tier == "quick" or (n == 3 and levels == 2):
+                        roots = ["seq" if (si // 3 + ai) % 2 else "source"]
                     else:
                         roots = ["seq", "source"]
                     for root in roots:
@@ -409,33 +411,68 @@ def observe(b, rec, root_dir, obs):
     return out
 
 
-def classify(tree, rec, label, observed, ctxinfo):
-    """Shape of a model mismatch (part of the mech), decided by an experiment:
-    the same tree with every SetContext that is not upstream of the consumer
-    replaced by a StoreContext is built; if the consumer then observes what the
-    fold predicts, the mismatch is caused by a later / sibling SetContext."""
+def _experiment(tree, label, ctxinfo, transform):
+    """Build transform(tree) and tell whether the consumer *label* then observes
+    what the fold predicts for it (None: experiment not applicable)."""
+    t = transform(copy.deepcopy(tree))
+    if t is None:
+        return None
+    try:
+        _, trec = M.fold(t)
+        tdir = os.path.join(ctxinfo["tmp"], "cl%d" % next(ctxinfo["n"]))
+        T = build(t, tdir, ctxinfo["flow"])
+        tobs = observe(T, {label: trec[label]}, tdir, ctxinfo["obs"])
+        return tobs[label] == M.expect_static(trec[label])[1]
+    except Exception:  # pylint: disable=broad-except
+        return None
+
+
+def classify(tree, rec, label, ctxinfo):
+    """Mechanism of a model mismatch, decided by experiments on the real code:
+    (a) every SetContext later than the consumer (not upstream of it) is replaced by
+        a StoreContext - mismatch gone: the consumer sees a later SetContext;
+    (b) the same for all SetContext elements that are not upstream (sibling branches);
+    (c) every Source is replaced by a Sequence (root) or a tuple (branch) - mismatch
+        gone: it is caused by the way Source handles its elements;
+    (d) (a)+(c), (b)+(c)."""
     recd = rec[label]
     p = recd["path"]
-    trunc = copy.deepcopy(tree)
-    n = 0
-    for q, it in M.leaves(tree):
-        if it[0] == "set" and q > p and not M.affects(tree, q, p):
-            parent = M.node_at(trunc, q[:-1])
-            parent[1][q[-1]] = ["store", "x%d" % n]
-            n += 1
-    if n:
-        try:
-            _, trec = M.fold(trunc)
-            tdir = os.path.join(ctxinfo["tmp"], "cl%d" % next(ctxinfo["n"]))
-            T = build(trunc, tdir, ctxinfo["flow"])
-            tobs = observe(T, {label: trec[label]}, tdir, ctxinfo["obs"])
-            if tobs[label] == M.expect_static(trec[label])[1]:
-                return "sees-later-setcontext"
-        except Exception:  # pylint: disable=broad-except
-            pass
-    if any(M.node_at(tree, p[:i])[0] == "source" for i in range(len(p))):
-        return "inside-source"
-    return "other"
+    kind = M.KIND_NAME[recd["kind"]]
+
+    def drop(which):
+        def tr(t):
+            n = 0
+            for q, it in M.leaves(tree):
+                if it[0] == "set" and not M.affects(tree, q, p) and (
+                        which == "all" or (q > p and M.relation(tree, q, p) == "later")):
+                    parent = M.node_at(t, q[:-1])
+                    parent[1][q[-1]] = ["store", "x%d" % n]
+                    n += 1
+            return t if n else None
+        return tr
+
+    def unsource(t):
+        n = 0
+        for q, it in list(M.walk(t)):
+            if it[0] == "source":
+                n += 1
+                if q and M.node_at(t, q[:-1])[0] == "split":
+                    it[:] = ["tuple", it[1]]
+                else:
+                    it[:] = ["seq", it[1]]
+        return t if n else None
+    if _experiment(tree, label, ctxinfo, drop("later")):
+        return "consumer-sees-later-setcontext:" + kind
+    if _experiment(tree, label, ctxinfo, drop("all")):
+        return "consumer-sees-sibling-setcontext:" + kind
+    if _experiment(tree, label, ctxinfo, unsource):
+        return "static-context-differs:only-inside-Source"
+    # two causes at once: reported under the consumer's own one
+    if _experiment(tree, label, ctxinfo, lambda t: unsource(drop("later")(t) or t)):
+        return "consumer-sees-later-setcontext:" + kind
+    if _experiment(tree, label, ctxinfo, lambda t: unsource(drop("all")(t) or t)):
+        return "consumer-sees-sibling-setcontext:" + kind
+    return "static-context-differs:" + kind
 
 
 def check_static(tree, rec, got, obs, where, ctxinfo):
@@ -451,10 +488,7 @@ def check_static(tree, rec, got, obs, where, ctxinfo):
             obs.count("unresolved_name_templates")
             continue
         if not obs.check(got[label] == exp,
-                         "static-context-differs:%s:%s" % (
-                             M.KIND_NAME[recd["kind"]],
-                             classify(tree, rec, label, got[label], ctxinfo)
-                             if got[label] != exp else ""),
+                         classify(tree, rec, label, ctxinfo) if got[label] != exp else "",
                          "%s: %s %r at path %r observed %r, the fold of the preceding "
                          "SetContext elements gives %r" % (where, M.KIND_NAME[recd["kind"]],
                                                            recd["item"], recd["path"],
@@ -650,8 +684,8 @@ def _case(r, obs, tmp):
         common = [mine[i] for i in mine if i in set_ids]
         naliased += 1 if common else 0
         obs.check(not common,
-                  "consumer-aliases-setcontext-dict:" + M.KIND_NAME[rec[label]["kind"]],
-                  "%s at %r holds the very object %r that a SetContext element holds "
+                  "consumer-sees-later-setcontext:" + M.KIND_NAME[rec[label]["kind"]],
+                  "identity walker: %s at %r holds the very object %r that a SetContext element holds "
                   "(SetContext mutates the dictionary it is given)"
                   % (M.KIND_NAME[rec[label]["kind"]], rec[label]["path"], common[:1]),
                   tree=tree)
@@ -688,9 +722,9 @@ def _case(r, obs, tmp):
                 continue
             obs.count("causality_comparisons")
             obs.check(vobs[label] == base[label],
-                      "causality:%s:changed-by-%s-setcontext"
-                      % (M.KIND_NAME[recd["kind"]], M.relation(vtree, q, p)),
-                      "%s %r at path %r observed %r; after %s of a SetContext at path %r "
+                      "consumer-sees-%s-setcontext:%s"
+                      % (M.relation(vtree, q, p), M.KIND_NAME[recd["kind"]]),
+                      "causality: %s %r at path %r observed %r; after %s of a SetContext at path %r "
                       "(not upstream of it) it observes %r"
                       % (M.KIND_NAME[recd["kind"]], recd["item"], p, base[label], what, q,
                          vobs[label]), tree=tree, variant=vtree)
